@@ -185,6 +185,160 @@ DepthCase(c) ==
         ELSE Chk(o.ep \o ":works-at-limit", o.err = "" /\ o.n = Len(exp.leaves) + (IF c.kind = "ss" THEN c.depth - (4 + c.delta) ELSE 0))]) \o
      Chk("limit-is-exact", IsErr(exp) <=> c.delta > 0)
 
+\* ---- pairs: equality/hash (C06), prefix x3 (C07), broadcast (C09), compose/transform (C08) -----
+\* All clauses are stated on the projected REAL treespecs sa, sb (flattening itself is judged by C02).
+OkV(r) == r.err = ""
+EqClauses(c) ==
+  LET e == c.eq  exp == SpecEq(c.sa, c.sb) IN
+  Chk("eq:a==b", e.ab = exp) \o Chk("eq:symmetric", e.ba = e.ab) \o Chk("eq:ne-is-negation", e.ne = ~e.ab) \o
+  Chk("eq:reflexive", e.aa) \o Chk("eq:hash-contract", e.ab => e.hash_eq) \o Chk("eq:hash-stable", e.hash_stable) \o
+  Chk("eq:other-type", e.other_type) \o
+  Concat([j \in DOMAIN e.routes |->
+     LET r == e.routes[j] IN
+     Chk("route:" \o r.route \o ":no-error", r.err = "") \o
+     (IF r.err # "" THEN <<>> ELSE
+        Chk("route:" \o r.route \o ":equal", r.eq = SpecEq(r.spec, c.sa) /\ r.eq) \o
+        Chk("route:" \o r.route \o ":hash", r.hash /\ r.in_set /\ r.dict_key))])
+
+PrefixClauses(c) ==
+  LET p == c.prefix
+      cfgb == [c.cfg EXCEPT !.haspred = FALSE]
+      exp == SpecPrefix(c.sa, c.sb, FALSE)
+      exps == SpecPrefix(c.sa, c.sb, TRUE)
+      fut == FlattenUpTo(c.sa, c.b, cfgb)
+      names == <<"is_prefix", "is_suffix", "le", "ge", "fn_is_prefix", "fn_is_suffix">>
+      snames == <<"is_prefix_strict", "is_suffix_strict", "lt", "gt">>
+  IN Concat([j \in DOMAIN names |-> Chk("prefix:" \o names[j], OkV(p[names[j]]) /\ p[names[j]].v = exp)]) \o
+     Concat([j \in DOMAIN snames |-> Chk("prefix:" \o snames[j], OkV(p[snames[j]]) /\ p[snames[j]].v = exps)]) \o
+     \* flatten_up_to succeeds exactly when sa is a prefix; ValueError otherwise; returns the subtrees at sa's leaves
+     Chk("flatten_up_to:agrees-with-is_prefix", (c.flatten_up_to.err = "") = exp) \o
+     Chk("flatten_up_to:agrees-with-spec", (c.flatten_up_to.err = "") = ~IsErr(fut)) \o
+     Chk("flatten_up_to:ValueError", c.flatten_up_to.err \in {"", "Value"}) \o
+     (IF c.flatten_up_to.err = "" /\ ~IsErr(fut) THEN Chk("flatten_up_to:subtrees", c.flatten_up_to.v = fut.subs) ELSE <<>>) \o
+     Chk("prefix_errors:no-exception", c.prefix_errors.err = "") \o
+     (IF c.prefix_errors.err = "" THEN Chk("prefix_errors:agrees", (c.prefix_errors.v = 0) = exp) ELSE <<>>) \o
+     Chk("tree_map:rest-check", IF exp THEN c.tree_map.err = "" /\ c.tree_map.calls = NumLeaves(c.sa)
+                                ELSE c.tree_map.err = "Value" /\ c.tree_map.calls = 0)
+
+\* Owner(p, l): for p <= l, the index of the p-leaf that sits above each leaf of l (in l's leaf order);
+\* children of dict nodes are matched by key.
+RECURSIVE OwnerAt(_, _, _, _, _)
+OwnerAt(pn, pp, ln, pl, base) ==
+  LET x == pn[pp]  y == ln[pl] IN
+  IF x.kind = NLEAF THEN [i \in 1..y.nl |-> base + 1]
+  ELSE LET kp == KidsOf(pn, pp)  kl == KidsOf(ln, pl)
+           offs == [i \in DOMAIN kp |-> SeqSum([j \in 1..(i - 1) |-> pn[kp[j]].nl])]
+           part(j) == LET i == IF y.kind \in DictKinds THEN IndexOf(y.keys[j], x.keys) ELSE j
+                      IN OwnerAt(pn, kp[i], ln, kl[j], base + offs[i])
+       IN Concat([j \in DOMAIN kl |-> part(j)])
+Owner(p, l) == OwnerAt(p.nodes, Len(p.nodes), l.nodes, Len(l.nodes), 0)
+\* every p-leaf value repeated once per l-leaf below it, in p's leaf order
+RepInOwnOrder(xs, owner) == Concat([i \in DOMAIN xs |-> [k \in 1..Cardinality({k \in DOMAIN owner : owner[k] = i}) |-> xs[i]]])
+
+BroadcastClauses(c) ==
+  LET l == Lub(c.sa, c.sb)
+      la == Flatten(c.a, c.cfg).leaves   lb == Flatten(c.b, c.cfg).leaves
+      pre == SpecPrefix(c.sa, c.sb, FALSE)
+  IN Chk("bcs:error-iff-conflict", (c.bcs.err = "") = ~IsErr(l)) \o
+     Chk("bcs:ValueError", c.bcs.err \in {"", "Value"}) \o
+     (IF c.bcs.err = "" /\ ~IsErr(l) THEN
+        Chk("bcs:least-common-suffix", c.bcs.v = l.spec) \o
+        Chk("bcs:paths", c.bcs.paths = Paths(l.spec)) \o
+        Chk("bcs:accessors", c.bcs.accs = ExpAccs(l.spec)) \o
+        Chk("bcs:entries", c.bcs.entries = Entries(Root(l.spec))) \o
+        Chk("bcs:both-are-prefixes", SpecPrefix(c.sa, c.bcs.v, FALSE) /\ SpecPrefix(c.sb, c.bcs.v, FALSE)) \o
+        Chk("bcs:equal-to-other-when-prefix", pre => (SpecPrefix(c.bcs.v, c.sb, FALSE) /\ SpecPrefix(c.sb, c.bcs.v, FALSE)))
+      ELSE <<>>) \o
+     \* tree_broadcast_prefix / broadcast_prefix: defined iff a <= b
+     Chk("broadcast_prefix:defined-iff-prefix", (c.bp.err = "") = pre /\ (c.tbp.err = "") = pre /\ c.bp.err \in {"", "Value"} /\ c.tbp.err \in {"", "Value"}) \o
+     (IF c.bp.err = "" /\ pre THEN
+        Chk("broadcast_prefix:leaves", c.bp.v = RepInOwnOrder(la, Owner(c.sa, c.sb))) ELSE <<>>) \o
+     (IF c.tbp.err = "" /\ c.bp.err = "" /\ pre THEN
+        LET ft == Flatten(c.tbp.v, c.cfg) IN
+        Chk("tree_broadcast_prefix:tree", ft.leaves = c.bp.v /\ SpecPrefix(ft.spec, c.sb, FALSE) /\ SpecPrefix(c.sb, ft.spec, FALSE)) ELSE <<>>) \o
+     Chk("broadcast_common:defined-iff-compatible", (c.bc.err = "") = ~IsErr(l) /\ (c.tbc.err = "") = ~IsErr(l)) \o
+     (IF c.bc.err = "" /\ c.tbc.err = "" /\ ~IsErr(l) THEN
+        Chk("broadcast_common:first", c.bc.v[1] = RepInOwnOrder(la, Owner(c.sa, l.spec))) \o
+        \* broadcast_common aligns the second list with the first (position k of both belongs to leaf k of the common suffix)
+        Chk("broadcast_common:second", c.bc.v[2] = [k \in DOMAIN Owner(c.sb, l.spec) |-> lb[Owner(c.sb, l.spec)[k]]]) \o
+        Chk("tree_broadcast_common:trees",
+              LET f1 == Flatten(c.tbc.v[1], c.cfg)  f2 == Flatten(c.tbc.v[2], c.cfg) IN
+              /\ f1.leaves = c.bc.v[1] /\ f2.leaves = RepInOwnOrder(lb, Owner(c.sb, l.spec))
+              /\ SpecPrefix(f1.spec, l.spec, FALSE) /\ SpecPrefix(l.spec, f1.spec, FALSE)
+              /\ SpecPrefix(f2.spec, l.spec, FALSE) /\ SpecPrefix(l.spec, f2.spec, FALSE)
+              /\ SpecPrefix(c.sa, f1.spec, FALSE) /\ SpecPrefix(c.sb, f2.spec, FALSE))
+      ELSE <<>>) \o
+     Chk("tree_broadcast_map:defined", (c.tbm.err = "") = ~IsErr(l)) \o
+     (IF c.tbm.err = "" /\ ~IsErr(l) THEN
+        LET oa == Owner(c.sa, l.spec)  ob == Owner(c.sb, l.spec) IN
+        Chk("tree_broadcast_map:calls", c.tbm.calls = [k \in DOMAIN oa |-> <<la[oa[k]], lb[ob[k]]>>]) ELSE <<>>)
+
+ComposeClauses(c) ==
+  LET e == Compose(c.sa, c.sb) IN
+  Chk("compose:error-class", IF IsErr(e) THEN c.compose.err = e.err ELSE c.compose.err = "") \o
+  (IF c.compose.err = "" /\ ~IsErr(e) THEN
+     Chk("compose:spec", c.compose.v = e.spec) \o
+     Chk("compose:num_leaves-multiply", NumLeaves(c.compose.v) = NumLeaves(c.sa) * NumLeaves(c.sb)) \o
+     Chk("compose:wellformed", WellFormed(c.compose.v.nodes)) \o
+     Chk("transform(leaf->s)=compose(s)", c.transform_leaf.err = "" /\ c.transform_leaf.v = c.compose.v)
+   ELSE <<>>) \o
+  Chk("transform(id,id)=id", c.transform_id.err = "" /\ c.transform_id.v = c.sa)
+
+\* ---- C05: the map family --------------------------------------------------------------------
+\* expected calls: one per leaf of a, in flatten order; k-th rest argument = subtree of rest k at the leaf's path
+MapCase(c) ==
+  LET fa == Flatten(c.a, c.cfg)
+      cfgr == [c.cfg EXCEPT !.haspred = FALSE]
+      ups == [k \in DOMAIN c.rests |-> FlattenUpTo(c.sa, c.rests[k], cfgr)]
+      bad == \E k \in DOMAIN ups : IsErr(ups[k])
+      n == Len(fa.leaves)
+      tps == ExpAccs(c.sa)
+  IN Chk("structure", c.sa = fa.spec) \o
+     Concat([j \in DOMAIN c.variants |->
+        LET v == c.variants[j] IN
+        IF bad
+        THEN Chk(v.name \o ":ValueError-before-any-call", v.err = "Value" /\ v.calls = <<>>)
+        ELSE Chk(v.name \o ":no-error", v.err = "") \o
+             Chk(v.name \o ":once-per-leaf-in-order", Len(v.calls) = n /\ \A i \in DOMAIN v.calls : v.calls[i].x = fa.leaves[i]) \o
+             Chk(v.name \o ":aligned-rests", \A i \in DOMAIN v.calls :
+                    v.calls[i].rests = [k \in DOMAIN c.rests |-> ups[k].subs[i]]) \o
+             (IF v.extra = "path" THEN Chk(v.name \o ":path-argument", \A i \in DOMAIN v.calls : v.calls[i].path = Paths(c.sa)[i]) ELSE <<>>) \o
+             (IF v.extra = "acc" THEN Chk(v.name \o ":accessor-argument", \A i \in DOMAIN v.calls : v.calls[i].acc = tps[i]) ELSE <<>>) \o
+             (IF v.err # "" THEN <<>>
+              ELSE IF v.inplace THEN Chk(v.name \o ":returns-original-object", v.same_object)
+              ELSE Chk(v.name \o ":result", ~v.same_object \/ n = 0 \/ KindOf(c.a, c.cfg) = "leaf") \o
+                   Chk(v.name \o ":result-tree",
+                       v.tree = Unflatten(c.sa, [i \in DOMAIN v.calls |-> v.calls[i].out], {}).tree))]) \o
+     Chk("identity-map", c.identity.err = "" /\ c.identity.tree = Strip(c.a, c.cfg)) \o
+     Chk("functor-law", c.functor.err = "" /\ c.functor.lhs = c.functor.rhs) \o
+     \* traverse / walk: the call log is the post-order node array itself
+     (LET tl == c.traverse.log  wl == c.walk.log  nodes == c.sa.nodes
+          leafpos(p) == Cardinality({q \in 1..p : nodes[q].kind = NLEAF})
+      IN Chk("traverse:no-error", c.traverse.err = "" /\ c.walk.err = "") \o
+         Chk("traverse:one-call-per-node-in-post-order",
+             Len(tl) = Len(nodes) /\ \A p \in DOMAIN nodes :
+                 IF nodes[p].kind = NLEAF THEN tl[p].k = "leaf" /\ tl[p].x = fa.leaves[leafpos(p)]
+                 ELSE tl[p].k = "node") \o
+         Chk("walk:one-call-per-node-in-post-order",
+             Len(wl) = Len(nodes) /\ \A p \in DOMAIN nodes :
+                 IF nodes[p].kind = NLEAF THEN wl[p].k = "leaf" /\ wl[p].x = fa.leaves[leafpos(p)]
+                 ELSE wl[p].k = "node" /\ wl[p].arity = nodes[p].arity) \o
+         (IF c.traverse.err = "" THEN Chk("traverse:rebuilds", c.traverse.tree = Strip(c.a, c.cfg)) ELSE <<>>))
+
+\* the same tree under two option sets
+XOptCase(c) ==
+  LET exp == SpecEq(c.sa, c.sb) IN
+  Chk("eq", c.ab = exp /\ c.ba = exp /\ c.ne = ~exp) \o
+  Chk("hash-contract", c.ab => c.hash_eq) \o
+  Chk("set-membership", c.ab => c.set_size = 1) \o
+  Chk("flatten-1", Flatten(c.t, c.cfg1).spec = c.sa) \o Chk("flatten-2", Flatten(c.t, c.cfg2).spec = c.sb)
+
+PairCase(c) ==
+  (IF InSeq("eq", c.fams) THEN EqClauses(c) ELSE <<>>) \o
+  (IF InSeq("prefix", c.fams) THEN PrefixClauses(c) ELSE <<>>) \o
+  (IF InSeq("broadcast", c.fams) THEN BroadcastClauses(c) ELSE <<>>) \o
+  (IF InSeq("compose", c.fams) THEN ComposeClauses(c) ELSE <<>>)
+
 \* ---- unflatten -----------------------------------------------------------------------------
 UnflattenCase(c) ==
   LET exp == Unflatten(c.spec, c.leaves, UNION {SubTrees(c.pool[i]) : i \in DOMAIN c.pool})
@@ -217,6 +371,14 @@ InspectCase(c) ==
   Chk("entry(i)", \A j \in DOMAIN o.entry :
                      LET e == Entry(s, o.entry[j].i) IN
                      IF IsErr(e) THEN o.entry[j].err = e.err ELSE o.entry[j].err = "" /\ o.entry[j].v = e.v) \o
+  Chk("repr", o.repr = ReprSpec(s) /\ o.str_is_repr) \o
+  Concat([j \in DOMAIN o.routes |->
+     LET rr == o.routes[j] IN
+     Chk("rebuild:" \o rr.route \o ":no-error", rr.err = "") \o
+     (IF rr.err # "" THEN <<>> ELSE
+        Chk("rebuild:" \o rr.route \o ":equal", SpecEq(rr.spec, s) /\ rr.eq /\ HashKeyDoc(rr.spec) = HashKeyDoc(s)) \o
+        Chk("rebuild:" \o rr.route \o ":paths", rr.paths = Paths(s)) \o
+        Chk("rebuild:" \o rr.route \o ":wellformed", WellFormed(rr.spec.nodes) /\ rr.spec.nil = s.nil))]) \o
   Chk("children-sum", NumNodes(s) > 1 =>
                          /\ SeqSum([i \in DOMAIN o.children |-> NumLeaves(o.children[i])]) = o.num_leaves
                          /\ SeqSum([i \in DOMAIN o.children |-> NumNodes(o.children[i])]) = o.num_nodes - 1)
@@ -228,6 +390,9 @@ Verdict(c) ==
     [] c.op = "c02laws" -> C02Laws(c)
     [] c.op = "c03extra" -> C03Extra(c)
     [] c.op = "depth" -> DepthCase(c)
+    [] c.op = "pair" -> PairCase(c)
+    [] c.op = "xopt" -> XOptCase(c)
+    [] c.op = "map" -> MapCase(c)
     [] c.op = "inspect" -> InspectCase(c)
     [] OTHER -> <<"unknown-op">>
 
@@ -236,6 +401,8 @@ Expected(c) ==
   CASE c.op = "flatten" -> Flatten(c.t, c.cfg)
     [] c.op = "unflatten" -> Unflatten(c.spec, c.leaves, UNION {SubTrees(c.pool[i]) : i \in DOMAIN c.pool})
     [] c.op = "roundtrip" -> [strip |-> Strip(c.t, c.cfg), unflat |-> Unflatten(c.flat.spec, c.flat.leaves, SubTrees(c.t))]
+    [] c.op = "pair" -> [prefix |-> SpecPrefix(c.sa, c.sb, FALSE), strict |-> SpecPrefix(c.sa, c.sb, TRUE), eq |-> SpecEq(c.sa, c.sb),
+                         fut |-> FlattenUpTo(c.sa, c.b, [c.cfg EXCEPT !.haspred = FALSE]), lub |-> Lub(c.sa, c.sb), compose |-> Compose(c.sa, c.sb)]
     [] OTHER -> "n/a"
 
 Inv == lo = hi => LET v == Verdict(Cases[lo]) IN
